@@ -333,6 +333,7 @@ pub fn run_seq(case: &Case, oracles: &mut [Box<dyn Oracle>], opts: &SeqOpts) -> 
                     crate::lat::LatWant::Value(v) => Ok(ROut { v, ents: vec![], syms: vec![] }),
                     crate::lat::LatWant::CyclePanic => Err(RPanic::Cycle),
                     crate::lat::LatWant::Either => Err(RPanic::Either),
+                    crate::lat::LatWant::EitherValue(v) => Err(RPanic::EitherValue(v)),
                     crate::lat::LatWant::Diverge => Err(RPanic::Diverge),
                 };
                 // after an injected panic, functions that can take part in a cycle may keep
@@ -519,7 +520,7 @@ fn strip_ids(g: &Got) -> (u32, Vec<(u32, u32, u32)>, Vec<(u8, u32)>) {
 }
 
 fn compare_fresh(idx: usize, key: (u8, u8), real: &Result<Got, Pan>, fresh: &Result<Got, Pan>, want: &Result<ROut, RPanic>) -> Option<Violation> {
-    if matches!(want, Err(RPanic::Either)) {
+    if matches!(want, Err(RPanic::Either) | Err(RPanic::EitherValue(_))) {
         return None;
     }
     match (real, fresh) {
